@@ -241,6 +241,7 @@ func genReq(rt *rapid.T) Req {
 		Gzip:    rapid.Bool().Draw(rt, "accept_gzip"),
 		ReqMark: rapid.SampledFrom([]string{"", "client"}).Draw(rt, "client_mark"),
 		Dress:   rapid.SampledFrom(append([]string{"", "", "", "", "", "", "upgrade-websocket", "cors-preflight", "cors-preflight-min"}, Dresses...)).Draw(rt, "dress"),
+		Target:  genTarget(rt),
 	}
 }
 
@@ -362,7 +363,7 @@ func genReqFor0(rt *rapid.T, chain []Elem) Req {
 func TestC17OrderSampled(t *testing.T) {
 	sub := lab.Sub("order-gating-sampled", "rapid: chains of length 4-5 over the seven kinds with per-instance apiKey in {alpha,beta} or (40%) an unusual non-empty key (whitespace-only, whitespace-padded, interior spaces, 2 KiB, non-ASCII), max_request_body in {default,16,100}, "+
 		"YAML rendering styles (block/flow, quoted/plain, int/float) or hand-built Go maps typed as yaml.v3 delivers them (50/50); requests: X-API-Key exact / absent / a near miss of the configured key (trimmed, padded, upper-cased, shortened) set verbatim on the *http.Request, body 0/4/40/200, "+
-		"Accept-Encoding gzip or not, client-sent mark, 1-2 further X-API-Key field lines in 1 of 8 requests (keys of the chain / wrong ones; either documented-compatible reading of such a request is accepted, the gating must be consistent with it), request dressing in {none, Upgrade: websocket, Upgrade: h2c, Expect: 100-continue, PUT, PATCH, DELETE, Authorization header, Range, CORS preflight (OPTIONS + Origin + Access-Control-Request-Method [+ -Headers]), plain OPTIONS, HEAD, TRACE, CONNECT with a path, PROPFIND, lower-case method token with preflight headers, Origin only, Origin + Access-Control-Request-Method on a non-OPTIONS request, X-HTTP-Method-Override, Cookie carrying the key, X-Forwarded-For/X-Real-IP loopback} - each with the case's body if it has one; BuildChain called 1..3 times on the same configuration value, the request served by the last handler built; same oracle as the enumeration (incl. the access-log count per `logging` instance); non-trivial = rejection with >= 1 probe on each side of the rejecting plugin, or accepted with >= 2 position-observable elements")
+		"Accept-Encoding gzip or not, client-sent mark, 1-2 further X-API-Key field lines in 1 of 8 requests (keys of the chain / wrong ones; either documented-compatible reading of such a request is accepted, the gating must be consistent with it), request dressing in {none, Upgrade: websocket, Upgrade: h2c, Expect: 100-continue, PUT, PATCH, DELETE, Authorization header, Range, CORS preflight (OPTIONS + Origin + Access-Control-Request-Method [+ -Headers]), plain OPTIONS, HEAD, TRACE, CONNECT with a path, PROPFIND, lower-case method token with preflight headers, Origin only, Origin + Access-Control-Request-Method on a non-OPTIONS request, X-HTTP-Method-Override, Cookie carrying the key, X-Forwarded-For/X-Real-IP loopback, GET carrying the body} - each with the case's body if it has one; request-target: the default unique path (3 of 10) or one of the target families of target.go (ordinary application paths, exact conventional paths such as /health, /metrics, /favicon.ico, /.well-known/security.txt, sub-paths of /.well-known/acme-challenge/, /admin/, /static/, /debug/pprof/, dot and empty segments, percent-escapes, a 2 KB path) with a drawn query string (none, empty, a key in the query, repeated parameters, escaped dot segments) - neither order nor gating may depend on it; BuildChain called 1..3 times on the same configuration value, the request served by the last handler built; same oracle as the enumeration (incl. the access-log count per `logging` instance); non-trivial = rejection with >= 1 probe on each side of the rejecting plugin, or accepted with >= 2 position-observable elements")
 	sub.NontrivialFloor(0.50)
 	sub.Floor("reject-between-probes", 0.10)
 	sub.Floor("route=yaml", 0.40)
@@ -373,6 +374,10 @@ func TestC17OrderSampled(t *testing.T) {
 	sub.Floor("dress=cors-preflight", 0.03)
 	sub.Floor("logging-after-rejecter", 0.04)
 	sub.Floor("logging-before-rejecter", 0.04)
+	sub.Floor("target=drawn", 0.40)
+	sub.Floor("target-well-known", 0.03)
+	sub.Floor("target-exact-path", 0.05)
+	sub.Floor("target-dot-or-empty-segment", 0.04)
 	lab.Check(t, sub, 1500, 50000, func(rt *rapid.T) {
 		n := rapid.IntRange(4, 5).Draw(rt, "len")
 		var chain []Elem
@@ -394,6 +399,7 @@ func TestC17OrderSampled(t *testing.T) {
 		if len(c.Req.ExtraKeys) > 0 {
 			labels = append(labels, "several-key-lines")
 		}
+		labels = append(labels, targetLabels(c.Req.Target)...)
 		if d == refused {
 			nt, labels = false, append(labels, "edge-key-config-refused")
 		}
